@@ -81,6 +81,8 @@ def resolve(name, params, d, rng):
       return big[:, ::2]
     return A
   for key, val in list(out.items()):
+    if not isinstance(val, str):
+      continue
     if val == '@spd':
       if rng.randint(4) == 0:
         # an SPD ndarray may well hold integers (its inverse does not)
